@@ -35,6 +35,7 @@ type item struct {
 	B  string  `json:"b"`
 	Eq bool    `json:"eq"`
 	Ps []param `json:"ps"`
+	C  string  `json:"c"`
 }
 type occ struct {
 	N string        `json:"n"`
@@ -90,10 +91,10 @@ func Spell(prog []item) string {
 				b.WriteString("{")
 				closers = append(closers, "}")
 			case "forlet":
-				b.WriteString("for(let " + it.N + ";;){")
+				b.WriteString("for(let " + it.N + ";" + it.C + ";){")
 				closers = append(closers, "}")
 			case "forvar":
-				b.WriteString("for(var " + it.N + ";;){")
+				b.WriteString("for(var " + it.N + ";" + it.C + ";){")
 				closers = append(closers, "}")
 			case "catch":
 				b.WriteString("try{}catch(" + it.N + "){")
@@ -136,6 +137,9 @@ func occKinds(prog []item) []string {
 					}
 				}
 			}
+			if it.C != "" {
+				out = append(out, "use")
+			}
 		}
 	}
 	return out
@@ -143,7 +147,8 @@ func occKinds(prog []item) []string {
 
 // occContexts gives, per identifier occurrence, structural facts used to name a mismatch precisely:
 // "forvar-same-name": the occurrence lies in the body of a for(var x;;) loop whose head declares its name;
-// "default-same-name": an enclosing function has a parameter default that mentions its name.
+// "default-same-name": an enclosing function has a parameter default that mentions its name;
+// "loopcond-same-name": it lies in the body of a for loop whose condition mentions its name.
 func occContexts(prog []item) [][]string {
 	out := [][]string{}
 	var stack []item
@@ -157,6 +162,9 @@ func occContexts(prog []item) [][]string {
 				if p.D == name {
 					c = append(c, "default-same-name")
 				}
+			}
+			if (sc.S == "forlet" || sc.S == "forvar") && sc.C == name {
+				c = append(c, "loopcond-same-name")
 			}
 		}
 		out = append(out, c)
@@ -180,6 +188,9 @@ func occContexts(prog []item) [][]string {
 						add(p.D, nil)
 					}
 				}
+			}
+			if it.C != "" {
+				add(it.C, nil)
 			}
 			stack = append(stack, it)
 		case "close":
